@@ -24,8 +24,8 @@ func init() {
 			"1 ns of conversion slack is allowed on top of the 2^-18 s field resolution",
 		},
 		Strata: []fw.Stratum{
-			{Name: "capture-time-and-offset", N: fw.Const(20000, 600000), Run: c18Capture},
-			{Name: "send-time-estimate", N: fw.Const(20000, 600000), Run: c18Estimate},
+			{Name: "capture-time-and-offset", N: fw.Const(60000, 900000), Run: c18Capture},
+			{Name: "send-time-estimate", N: fw.Const(60000, 900000), Run: c18Estimate},
 		},
 	})
 }
